@@ -1,4 +1,4 @@
-\* emission: every edge of the histories of up to 3 actions, every state with its observation; laws checked as well
+\* quick: every history of up to 3 actions from every initial state of the six scenarios; one printed line per explored edge (behaviour + observation); all laws
 CONSTANTS CompArea <- McCompArea  Holds <- McHolds  NNuc = 4  AW <- McAW  NameRev = FALSE  TempNuc = 2
   Scenarios <- McScenarios  ScnOf <- McScnOf  MaxLevel = 4
 INIT Init
